@@ -183,6 +183,10 @@ impl Params {
                 *q = if mode % 3 == 1 { c / 2 + 1 } else { 2 * c + 3 };
             }
         }
+        // ... and with another multiplier (a copy must take the source's, not keep its own)
+        if mode % 3 != 0 && self.kind.has_multiplier() {
+            rp.k = if mode % 3 == 1 { self.k * 0.5 + 1.5 } else { -self.k - 0.25 };
+        }
         rp
     }
     pub fn with_k(mut self, k: f64) -> Params {
